@@ -569,6 +569,12 @@ def SM(name):
 def _strip(eng, s, chars=None):
     if chars is not None:
         return _strip_chars(s, chars, True, True)
+    if getattr(eng, 'find_branches', False) and isinstance(s, SymStr) and s.fixed:
+        # deciding version: blank or not is decided character by character from both ends (concrete bounds on every path)
+        a, b = 0, s.n
+        while a < b and eng.branch(to_bool(V.is_space_c(s.chars[a]))): a += 1
+        while b > a and eng.branch(to_bool(V.is_space_c(s.chars[b - 1]))): b -= 1
+        return norm_str(SymStr(s.chars[a:b]))
     return norm_str(V.str_strip(s))
 
 
@@ -757,6 +763,16 @@ def _split(eng, s, sep=None):
     s = norm_str(s)
     if isinstance(s, str):
         return s.split(sep)
+    if sep is None and getattr(eng, 'find_branches', False) and isinstance(s, SymStr) and s.fixed:
+        # deciding version: the runs of non-blank characters, found by branching on every character
+        out, cur = [], []
+        for c in s.chars:
+            if eng.branch(to_bool(V.is_space_c(c))):
+                if cur: out.append(norm_str(SymStr(cur))); cur = []
+            else:
+                cur.append(c)
+        if cur: out.append(norm_str(SymStr(cur)))
+        return out
     raise Unsupported('split of symbolic string')
 
 
